@@ -20,11 +20,16 @@ RULE = ("one case = a history of 2-5 runs on one real recorder: operations of tw
         "in the derived class or inherited; a deterministic grid over level x inherited x termination x extractor); after each "
         "history the lookup is asked through properties objects in every state reached after construction (skip_incomplete "
         "switched on / off / toggled, .metadata reassigned, one object for all categories and looked up twice); "
+        "a recorded operation inside which a replay / another decorated operation runs before it returns, raises or is "
+        "interrupted (kind nested_scope: the saved metadata and the default lookup speak about the ENCLOSING run); a grid in "
+        "which the reserved text '_tape_recorder_operation' turns up in input arguments / keyword arguments / input aliases / "
+        "record_data keys / output arguments of returning, raising and interrupted runs (both implementation only); "
         "non-trivial = a run that is saved; distinct = distinct history")
 ASSUMPTIONS = ["duration and timestamp come from the OS clock: only sanity (0 <= duration < 1h; the timestamp is a naive UTC time "
                "within two minutes of the save, also when the process's local time zone is not UTC) is checked by the harness, "
                "they are excluded from the model comparison",
-               "output aliases / user keys do not contain '_tape_recorder_operation' (hypothesis sites_ok clean)"]
+               "output aliases do not contain '_tape_recorder_operation' (hypothesis sites_ok clean of the theorem; the direct predicate "
+               "also runs input arguments / input aliases / data keys carrying that text)"]
 TRUSTED = ["harness-side undecorated twin interpreter (termination mode of the run) used by the direct predicate"]
 THEOREMS = ["C18_metadata_truth", "C18_flags", "C18_clean_sufficient"]
 # the same histories again in an interpreter whose local time is far from UTC: the recording timestamp is a UTC time
